@@ -175,7 +175,7 @@ def native_run(k, inputs, outdir, tag='replay'):
     os.makedirs(outdir, exist_ok=True)
     cpp = os.path.join(outdir, tag + '.cpp'); exe = os.path.join(outdir, tag + '.bin')
     open(cpp, 'w').write(src)
-    flags = [f for f in gen.flags_for(k.arch) if not f.startswith('-I')] + ['-I' + gen.REPO + '/include']
+    flags = [f for f in gen.native_flags(k.arch) if not f.startswith('-I')] + ['-I' + gen.REPO + '/include']
     if k.arch.startswith('emu'): flags.append('-DXSIMD_WITH_EMULATED=1')
     runsh = os.path.join(outdir, 'run.sh')
     open(runsh, 'w').write('#!/bin/sh\n# rebuilds the wrapper from the current /repo headers and prints the native result bytes\ncd "$(dirname "$0")" && %s %s %s.cpp -o %s.bin && ./%s.bin\n' % (gen.CLANG, ' '.join(flags), tag, tag, tag))
@@ -683,7 +683,8 @@ def finish(prop, P, tier, seed, kernels, dropped, missing, recs, wall, t_lower, 
         return 3
     if mism:
         for m_ in mism[:10]: print('ENCODER-MISMATCH %s inputs=%s native=%s %s' % (m_['kernel'], json.dumps(m_['inputs'])[:300], str(m_['native'])[:64], m_.get('lanes') or m_.get('why')), file=sys.stderr)
-        if not os.environ.get('XV_VALIDATE_NONFATAL'): return 3
+        # a natively reproduced violation stands on its own; without one, a run whose model of the code is not faithful ends as an internal error
+        if not nviol and not os.environ.get('XV_VALIDATE_NONFATAL'): return 3
     if covered < need:
         print('INTERNAL-ERROR coverage collapsed: %d wrappers covered < %d required' % (covered, need), file=sys.stderr)
         return 3
